@@ -6,6 +6,7 @@ import Bmc.Driver.DecDcmi
 import Bmc.Driver.DecSdr
 import Bmc.Driver.DecSetup
 import Bmc.Driver.Rt
+import Bmc.Driver.Rt2
 import Bmc.Driver.Send
 import Bmc.Driver.SlSend
 open Bmc.Driver
@@ -28,6 +29,8 @@ def step (line : String) : String :=
   | id :: _cls :: "str" :: args => s!"{id} {evalStr args}"
   | id :: _cls :: "dec" :: args => s!"{id} {evalDec args}"
   | id :: _cls :: "rt" :: args => s!"{id} {evalRt args}"
+  | id :: _cls :: "rtv1" :: args => s!"{id} {evalRtV1 args}"
+  | id :: _cls :: "rtrakp1" :: args => s!"{id} {evalRtRakp1 args}"
   | id :: _cls :: "send" :: args => s!"{id} {evalSend args}"
   | id :: _cls :: "slsend" :: args => s!"{id} {evalSlSend args}"
   | id :: _ => s!"{id} bad-op"
